@@ -37,6 +37,7 @@ open Typelib
 def kDict : Str := "__dict__".toList
 def kWeakref : Str := "__weakref__".toList
 def kSlots : Str := "__slots__".toList
+def kSlotnames : Str := "__slotnames__".toList
 def kGetstate : Str := "__getstate__".toList
 def kSetstate : Str := "__setstate__".toList
 
@@ -123,7 +124,7 @@ def stateFix (c : Cls) : Bool :=
 def newDict (c : Cls) (f : Flags) : List Str :=
   let d1 := addKey c.dictKeys kSlots
   let d2 := popAll d1 (fieldNames c f)
-  let d3 := popKey (popKey d2 kDict) kWeakref
+  let d3 := popKey (popKey (popKey d2 kDict) kWeakref) kSlotnames   -- classes.py: the stale copyreg cache is dropped too
   if stateFix c then addKey d3 kSetstate else d3
 
 /-- Does this decoration install the pickle fix `_slots_setstate` as `__setstate__`? -/
